@@ -291,6 +291,88 @@ func parseModel(s string, vars []*Term, em *emitter) map[string]uint64 {
 	return m
 }
 
+// oneShot decides a conjunction with a fresh solver process (full preprocessing, no incremental mode), which is
+// far stronger than push/pop mode on arithmetic-heavy queries.
+func oneShot(conj []*Term, solver string, timeoutMs int, wantModel bool) queryResult {
+	t0 := time.Now()
+	var full strings.Builder
+	full.WriteString("(set-option :produce-models true)\n")
+	if strings.HasPrefix(solver, "cvc5") {
+		full.WriteString("(set-logic ALL)\n")
+	}
+	em := newEmitter(&full)
+	var ns []string
+	for _, t := range conj {
+		ns = append(ns, em.emit(t))
+	}
+	for _, n := range ns {
+		fmt.Fprintf(&full, "(assert %s)\n", n)
+	}
+	full.WriteString("(check-sat)\n")
+	vars := coneVars(conj)
+	if wantModel && len(vars) > 0 {
+		full.WriteString("(get-value (")
+		for _, v := range vars {
+			full.WriteString(em.names[v.id])
+			full.WriteByte(' ')
+		}
+		full.WriteString("))\n")
+	}
+	r := queryResult{solver: solver + "/oneshot", verdict: "unknown"}
+	f, err := os.CreateTemp("", "vq*.smt2")
+	if err != nil {
+		r.detail = err.Error()
+		return r
+	}
+	defer os.Remove(f.Name())
+	f.WriteString(full.String())
+	f.Close()
+	args := append([]string{}, solverCmds[solver]...)
+	var cmdArgs []string
+	for _, a := range args[1:] {
+		if a != "-in" && a != "--incremental" {
+			cmdArgs = append(cmdArgs, a)
+		}
+	}
+	if strings.HasPrefix(solver, "cvc5") {
+		cmdArgs = append(cmdArgs, fmt.Sprintf("--tlimit=%d", timeoutMs))
+	} else {
+		cmdArgs = append(cmdArgs, fmt.Sprintf("-T:%d", timeoutMs/1000+1))
+	}
+	cmdArgs = append(cmdArgs, f.Name())
+	cmd := exec.Command(args[0], cmdArgs...)
+	done := make(chan struct{})
+	go func() {
+		select {
+		case <-done:
+		case <-time.After(time.Duration(timeoutMs)*time.Millisecond + 10*time.Second):
+			cmd.Process.Kill()
+		}
+	}()
+	out, _ := cmd.Output()
+	close(done)
+	lines := strings.Split(string(out), "\n")
+	rest := ""
+	for i, l := range lines {
+		l = strings.TrimSpace(l)
+		if l == "sat" || l == "unsat" || l == "unknown" {
+			r.verdict = l
+			rest = strings.Join(lines[i+1:], " ")
+			break
+		}
+		if strings.HasPrefix(l, "(error") {
+			r.verdict = "error"
+			r.detail = l
+			break
+		}
+	}
+	if r.verdict == "sat" && wantModel {
+		r.model = parseModel(rest, vars, em)
+	}
+	r.secs = time.Since(t0).Seconds()
+	return r
+}
+
 // ---------- pool ----------
 
 type solveJob struct {
@@ -343,24 +425,32 @@ func dischargeAll(obs []*Oblig, assumes []*Term, opts solveOpts) (solverSecs flo
 				conj := append([]*Term{}, assumes[:o.nAssume]...)
 				conj = append(conj, o.cond)
 				var r queryResult
-				for _, sn := range opts.solvers {
-					p := get(sn)
-					if p == nil {
-						continue
-					}
-					termMu.Lock() // emission reads shared term structures only; lock guards emitter-independent globals
-					termMu.Unlock()
-					r = p.check(conj, opts.timeoutMs, true)
+				// 1. incremental (push/pop) with a short limit: cheap for the many easy queries
+				quick := opts.timeoutMs
+				if quick > 4000 {
+					quick = 4000
+				}
+				if p := get(opts.solvers[0]); p != nil {
+					r = p.check(conj, quick, true)
 					mu.Lock()
 					solverSecs += r.secs
 					mu.Unlock()
-					if r.verdict == "sat" || r.verdict == "unsat" {
-						break
+				}
+				// 2. fresh process per query (full preprocessing) with the full limit, each solver in turn
+				if r.verdict != "sat" && r.verdict != "unsat" {
+					for _, sn := range opts.solvers {
+						r = oneShot(conj, sn, opts.timeoutMs, true)
+						mu.Lock()
+						solverSecs += r.secs
+						mu.Unlock()
+						if r.verdict == "sat" || r.verdict == "unsat" {
+							break
+						}
 					}
 				}
 				if opts.cross != "" && (r.verdict == "sat" || r.verdict == "unsat") {
-					if p := get(opts.cross); p != nil {
-						r2 := p.check(conj, opts.timeoutMs, false)
+					{
+						r2 := oneShot(conj, opts.cross, opts.timeoutMs, false)
 						mu.Lock()
 						solverSecs += r2.secs
 						mu.Unlock()
